@@ -12,7 +12,8 @@ from pdl import program_hidden
 
 FACETS = ("eval", "keys", "validate", "explain", "trace", "cache", "log", "req", "mut", "construct")
 
-OP_FACET = {"evaluate": "eval", "keys": "keys", "validate": "validate", "explain": "explain", "transform": "eval"}
+OP_FACET = {"evaluate": "eval", "keys": "keys", "validate": "validate", "explain": "explain", "transform": "eval",
+            "fingerprint": "keys"}
 
 
 def run_impl(programs: Sequence[Dict[str, Any]], hashseed: Optional[str] = "0", timeout: int = 1800) -> List[Any]:
